@@ -84,3 +84,28 @@ let hex_of_bytes (l : coq_Z list) : string =
 
 let split_on c s = String.split_on_char c s
 let ints_csv (l : int list) = String.concat "," (Stdlib.List.map string_of_int l)
+
+(* ---- printers of extracted values as Gallina terms (extraction cross-check inside Coq:
+   `Registry.register_coq`, see the end of c18.ml).  Numbers that fit 60 bits are printed in
+   decimal, larger ones as hexadecimal literals (Coq >= 8.13 parses 0x.. in Z/N/positive scope). *)
+let rec pos_nbits = function Coq_xH -> 1 | Coq_xO p | Coq_xI p -> 1 + pos_nbits p
+let coq_pos_lit (p : positive) : string =
+  if pos_nbits p <= 60 then string_of_int (int_of_pos p) else "0x" ^ hex_of_pos p
+let coq_z (z : coq_Z) : string = match z with
+  | Z0 -> "0%Z" | Zpos p -> coq_pos_lit p ^ "%Z" | Zneg p -> "(-" ^ coq_pos_lit p ^ ")%Z"
+let coq_n (n : coq_N) : string = match n with N0 -> "0%N" | Npos p -> coq_pos_lit p ^ "%N"
+let coq_pos (p : positive) : string = coq_pos_lit p ^ "%positive"
+let coq_nat (n : nat) : string = Printf.sprintf "%d%%nat" (int_of_nat n)
+let coq_bool (b : bool) : string = if b then "true" else "false"
+let coq_list (f : 'a -> string) (l : 'a list) : string = "[" ^ String.concat "; " (Stdlib.List.map f l) ^ "]"
+let coq_zlist (l : coq_Z list) : string = coq_list coq_z l
+let coq_option (f : 'a -> string) (o : 'a option) : string = match o with None -> "None" | Some x -> "(Some " ^ f x ^ ")"
+let coq_pair (f : 'a -> string) (g : 'b -> string) ((a, b) : 'a * 'b) : string = "(" ^ f a ^ ", " ^ g b ^ ")"
+let coq_unit () : string = "tt"
+(* one Example proved by evaluation inside Coq *)
+let coq_example_named (out : out_channel) (name : string) (lhs : string) (rhs : string) : unit =
+  Printf.fprintf out "Example %s :\n  %s\n  = %s.\nProof. vm_compute. reflexivity. Qed.\n" name lhs rhs
+let coq_example (out : out_channel) (idx : int) (lhs : string) (rhs : string) : unit =
+  coq_example_named out (Printf.sprintf "sample_%d" idx) lhs rhs
+let coq_outcome (f : 'a -> string) (o : 'a Base.outcome) : string = match o with
+  | Base.Ok v -> "(Ok " ^ f v ^ ")" | Base.Err c -> "(Err " ^ coq_z c ^ ")" | Base.Panic s -> "(Panic " ^ coq_z s ^ ")"
